@@ -33,6 +33,11 @@ class Tokenizer:
         r'\\(?:([0-9a-fA-F]{1,6})(?:\r\n|[\t\r\n\f\x20])?|[^\n\r\f])'
     ).sub
     cleanstring = re.compile(r'\\((\r\n)|[\n\r\f])').sub
+    # in strings backslash + line break (group 2) is a line continuation, which
+    # must be found in the same pass: "\\\a " is a backslash and a line break
+    stringsub = re.compile(
+        r'\\(?:([0-9a-fA-F]{1,6})(?:\r\n|[\t\r\n\f\x20])?|(\r\n|[\n\r\f])|[^\n\r\f])'
+    ).sub
 
     def __init__(self, macros=None, productions=None, doComments=True):
         """
@@ -115,8 +120,8 @@ class Tokenizer:
         def _repl(m):
             "used by unicodesub"
             if m.group(1) is None:
-                # simple escape
-                return m.group(0)
+                # simple escape or (lastindex 2, strings only) line continuation
+                return '' if m.lastindex == 2 else m.group(0)
             num = int(m.group(1), 16)
             if num <= sys.maxunicode:
                 return chr(num)
@@ -221,10 +226,11 @@ class Tokenizer:
                         ):
                             # may contain unicode escape, replace with normal
                             # char but do not _normalize (?)
-                            value = self.unicodesub(_repl, found)
                             if name in ('STRING', 'INVALID'):  # 'URI'?
-                                # remove \ followed by nl (so escaped) from string
-                                value = self.cleanstring('', value)
+                                # also removes \ followed by nl (so escaped)
+                                value = self.stringsub(_repl, found)
+                            else:
+                                value = self.unicodesub(_repl, found)
 
                         else:
                             if 'ATKEYWORD' == name:
